@@ -76,5 +76,7 @@ func run(r *ev.Run) {
 		"comparisons_with_2plus_segments": tot.multiSeg,
 	})
 
+	runEnumPart(r, dir)
+
 	runStress(r, dir)
 }
